@@ -218,6 +218,19 @@ def build(succ, mode, pal):
                 tmp = m.new('A')
                 xtuml.relate(w.insts[x], tmp, REL, p_succ)
                 xtuml.delete(tmp)
+        # relate calls that must be rejected (the end is taken) and must leave no trace
+        for x, y in enumerate(succ):
+            if y is not None:
+                for z in range(len(succ)):
+                    if z != x:
+                        for a, b, ph in ((z, y, p_succ), (y, z, p_pred), (x, z, p_succ), (z, x, p_pred)):
+                            if (ph == p_succ and (succ[a] is not None or b in has_pred) and succ[a] != b) or \
+                               (ph == p_pred and (succ[b] is not None or a in has_pred) and succ[b] != a):
+                                try:
+                                    xtuml.relate(w.insts[a], w.insts[b], REL, ph)
+                                except xtuml.MetaException:
+                                    pass
+                        break
         for z in range(len(succ)):
             if z not in has_pred:
                 tmp = m.new('A')
@@ -430,7 +443,14 @@ def run_world(sub, task):
     modes = range(MODES) if n <= 4 else [(idx + sub.seed) % MODES]
     pal = sub.seed % len(PALETTES)
     for mode in modes:
-        w = build(succ, mode, pal)
+        try:
+            w = build(succ, mode, pal)
+        except (core.HarnessError, Exception) as e:
+            # the arrangement could not be produced with relate / unrelate / delete calls that must produce it
+            # (for mode 3: including rejected calls that must leave no trace)
+            sub.violation('c16:build:arrangement', make_case(n, succ, mode, pal, tuple(range(n)), 0, 0),
+                          'the arrangement %r could not be built through the public API (mode %d): %s' % (list(succ), mode, e))
+            continue
         sub.count('worlds')
         sub.count('build_ops', n + max(0, n - 1) + sum(1 for y in succ if y is not None))
         for k, S in enumerate(set_orders(n, pure)):
@@ -532,7 +552,11 @@ def run(ctx):
 def replay(ctx, case):
     _HANGS.value = 0
     succ = tuple(case['succ'])
-    w = build(succ, case['mode'], case['palette'])
+    try:
+        w = build(succ, case['mode'], case['palette'])
+    except (core.HarnessError, Exception) as e:
+        ctx.violation('c16:build:arrangement', case, 'the arrangement could not be built through the public API: %s' % e)
+        return
     check_one(ctx, w, case['n'], succ, case['mode'], case['palette'], tuple(case['set']), case['phrase'],
               case['relspell'])
 
